@@ -30,7 +30,7 @@ def spec_without(spec, name):
 def check_case(case):
     res = Res()
     inputs = [tuple(x) for x in case["inputs"]]
-    spec = mux_spec(inputs, case["pal"], case["rs_list"], case["rails"], case["by_rail"], pol=case.get("pol", 1), mux_pc=case.get("mux_pc"), order=case.get("order"), ig_table=case.get("ig_table", False))
+    spec = mux_spec(inputs, case["pal"], case["rs_list"], case["rails"], case["by_rail"], pol=case.get("pol", 1), mux_pc=case.get("mux_pc"), order=case.get("order"), ig_table=case.get("ig_table", False), below=case.get("below", "std"))
     if case.get("reload"):
         # the declared priority order (different from the creation order) must survive save() / from_file()
         from ..sysmodel import build, observe
@@ -103,6 +103,9 @@ def check_case(case):
         except (RuntimeError, ValueError) as e:
             res.classes.add("edited-unsolvable")
             return res
+        except Exception as e:
+            res.v(("C05.after-edit-solve-raises", type(e).__name__), "%s" % e)
+            return res
         obs = observe(df)
         d = resolve(spec)
         for ph in spec["phases"]:
@@ -167,6 +170,7 @@ def gen_edits(tier, pal):
                 endp = {"S": "S%d", "SC": "C%d", "SH": "P%d", "SL": "G%d"}[t] % j
                 yield dict(inputs=[list(x) for x in inputs], pal=pal, rs_list=True, rails=False, by_rail=False, pol=1, delete=endp, rename=True)
             yield dict(inputs=[list(x) for x in inputs], pal=pal, rs_list=False, rails=False, by_rail=False, pol=1, delete="M", remux=True)
+            yield dict(inputs=[list(x) for x in inputs], pal=pal, rs_list=False, rails=False, by_rail=False, pol=1, delete="M", remux=True, below="none")  # childless mux: the re-added node gets the SAME index
             t0 = inputs[0][0]
             end0 = {"S": "S1", "SC": "C1", "SH": "P1", "SL": "G1"}[t0]
             if t0 != "SL":
